@@ -4,7 +4,10 @@ use crate::push::item::PushType;
 use crate::push::state::*;
 use crate::push::topology::Topology;
 use crate::push::vector::{BoolVector, FloatVector, IntVector};
+#[cfg(not(feature = "verif"))]
 use std::collections::HashMap;
+#[cfg(feature = "verif")]
+use crate::push::verif_seam::DetMap as HashMap;
 
 /// Integer numbers (that is, numbers without decimal points).
 pub fn load_list_instructions(map: &mut HashMap<String, Instruction>) {
